@@ -6055,8 +6055,11 @@ class FlowIRConcrete(object):
         with self._cache._lock:
             component = self._component_dictionary[comp_id]
 
+            # VV: fails here - before the stored component is touched - when new_flowir is not a dictionary
+            replacement = dict(new_flowir)
+
             component.clear()
-            component.update(new_flowir)
+            component.update(replacement)
 
             self.invalidate_cache_for_component(comp_id)
 
